@@ -49,7 +49,7 @@ InitTakes == << [O0 EXCEPT !.op = "TakeAlias", !.x = "x", !.kind = "var", !.name
                 [O0 EXCEPT !.op = "TakeAlias", !.x = "x", !.kind = "share", !.name = "ax4"],
                 [O0 EXCEPT !.op = "TakeAlias", !.x = "y", !.kind = "var", !.name = "ay1"],
                 [O0 EXCEPT !.op = "TakeAlias", !.x = "y", !.kind = "share", !.name = "ay2"] >>
-AliasRec(st, o) == [name |-> o.name, kind |-> o.kind, val |-> AliasVal(st, o)]
+AliasRec(st, o) == [name |-> o.name, kind |-> o.kind, x |-> o.x, p |-> o.p, val |-> AliasVal(st, o)]
 
 StoreSeq(st) == <<st["x"], st["y"]>>
 Vals(al) == [i \in 1..Len(al) |-> al[i].val]
@@ -82,7 +82,7 @@ View == <<store, alias, snap, Len(hist)>>
 
 (* ---- properties *)
 AliasesFrozen == \A i \in 1..Len(alias) : alias[i].val = snap[i]
-OnlyTargetRebound == [][\A o \in Muts(store) : Mutate(o) => OnlyTargetReboundStep(store, o, store')]_vars
+OnlyTargetRebound == [][OnlyTargetReboundStep(store, hist'[Len(hist')].o, store')]_vars
 \* the last step (if it was an assignment that did not raise) produced the nested assoc of the old value
 LastOK ==
   Len(hist) < 2 \/
